@@ -473,7 +473,7 @@ def gen_lifo(ctx, tier):
             progs.append([(DRAIN, 0)])
             nt += 1
         length = rng.randint(5, 4 * sum(len(p) for p in progs) + 5)
-        cases.append(core.fmt_case([rng.choice([1, 2, 2, 3]), rng.choice([0, 0, -2, 1000]), 500], progs,
+        cases.append(core.fmt_case([rng.choice([1, 2, 2, 3]), rng.choice([0, 0, -2, 1000, (1 << 32) - 2, (1 << 31) - 1, (1 << 16) - 2]), 500], progs,
                                    core.random_sched(rng, nt, length, rng.randrange(3))))
     # (4) sequential programs, (5) boundaries: no nodes at all, counter about to wrap, drain only
     for _ in range(150):
@@ -563,7 +563,7 @@ def gen_distfifo(ctx, tier):
         for t in range(1, nt):
             progs.append([(rng.choice([POP, POP, POP, DRAIN, PUSH]), 0) for _ in range(rng.randint(1, 6))])
         length = rng.randint(5, 5 * sum(len(p) for p in progs) + 5)
-        cases.append(core.fmt_case([rng.choice([0, 1, 2, 4]), rng.choice([0, 0, -2, 1000]), 600], progs,
+        cases.append(core.fmt_case([rng.choice([0, 1, 2, 4]), rng.choice([0, 0, -2, 1000, (1 << 32) - 2, (1 << 31) - 1, (1 << 16) - 2]), 600], progs,
                                    core.random_sched(rng, nt, length, rng.randrange(3))))
     for _ in range(150):
         progs = [[(rng.choice([PUSH, POP, DRAIN]), rng.randint(0, 63)) for _ in range(rng.randint(1, 12))]]
@@ -607,7 +607,7 @@ def gen_msignal(ctx, tier):
         for t in range(nt):
             progs.append([(rng.choice([WAIT, WAIT, RAISE, RAISE, STRICT]), 0) for _ in range(rng.randint(1, 6))])
         length = rng.randint(5, 6 * sum(len(p) for p in progs) + 5)
-        cases.append(core.fmt_case([rng.choice([0, 0, -2, 1000]), 400], progs,
+        cases.append(core.fmt_case([rng.choice([0, 0, -2, 1000, (1 << 32) - 2, (1 << 31) - 1, (1 << 16) - 2]), 400], progs,
                                    core.random_sched(rng, nt, length, rng.randrange(3))))
     for _ in range(100):
         progs = [[(rng.choice([RAISE, RAISE, WAIT]), 0) for _ in range(rng.randint(1, 8))]]
